@@ -268,6 +268,18 @@ def execute(pack, fc, hist, seed, pid=PID, ch=None, fixed=None, enc="direct"):
             rets = ret
         else:
             rets = [ret]
+        # ---- (c) one result per payload *in order*: the right results in the wrong positions
+        if kind == "L":
+            exps = []
+            for p in pls:
+                oks = [e for e in tru if e[0] == "tx_ok" and e[1] == p]
+                ackpl = bytes(oks[-1][2] or b"") if oks else b""
+                exps.append(False if not oks else (ackpl if (mode == "ackpl" and not so and ackpl) else True))
+            norm = [bytes(x) if isinstance(x, (bytes, bytearray)) else x for x in rets]
+            if norm != exps and sorted(map(repr, norm)) == sorted(map(repr, exps)):
+                viol = V("list-order", "list", "send(list) returned %s, the payloads' fates in order are %s" % (show(ret), show(exps)))
+                outcomes.append("L:order")
+                break
         # ---- (a)/(b) per element: return value vs. fate of this payload
         call_out = []
         if kind == "R" and not target:
